@@ -8,16 +8,27 @@ from ..frontend import AnalysisError
 
 def dict_call_keys(fn, var=None):
     """Keys of the dictionary handed to `pickle.dump(<d>, ...)`, built by
-    `<d> = dict(k=v, ...)` -> {key: value expr}."""
+    `<d> = dict(k=v, ...)` or `<d> = {'k': v, ...}` (or written in the
+    call itself) -> {key: value expr}."""
+    def keys_of(v):
+        if isinstance(v, ast.Call) and au.call_name(v) == 'dict' and \
+                not v.args:
+            return {k.arg: k.value for k in v.keywords if k.arg}
+        if isinstance(v, ast.Dict) and v.keys and all(
+                isinstance(k, ast.Constant) and isinstance(k.value, str)
+                for k in v.keys):
+            return {k.value: x for k, x in zip(v.keys, v.values)}
+        return None
     if var is None:
         for c in au.calls_in(fn, 'dump'):
             if c.args and isinstance(c.args[0], ast.Name):
                 var = c.args[0].id
+            elif c.args and keys_of(c.args[0]) is not None:
+                return keys_of(c.args[0])
     for n in au.walk_no_defs(fn):
         if isinstance(n, ast.Assign) and var and au.is_name(
-                n.targets[0], var) and isinstance(n.value, ast.Call) and \
-                au.call_name(n.value) == 'dict':
-            return {k.arg: k.value for k in n.value.keywords if k.arg}
+                n.targets[0], var) and keys_of(n.value) is not None:
+            return keys_of(n.value)
     return None
 
 
@@ -146,25 +157,10 @@ def pickle_keys(P, R):
             R.violation('R-FORMAT', 'pickle-content', w.qualname, k,
                         f'key `{k}` holds `{got}` instead of `{want}`',
                         unit=w.unit.rel, line=w.lineno)
-    # the node table of the dump is a restriction of _succ
-    gens = [n for n in au.walk_no_defs(w.node)
-            if isinstance(n, ast.GeneratorExp)]
-    ok = False
-    for g in gens:
-        e = g.elt
-        if isinstance(e, ast.Tuple) and len(e.elts) == 2 and isinstance(
-                e.elts[1], ast.Subscript) and au.chain(
-                    e.elts[1].value) == ['self', '_succ'] and au.src(
-                        e.elts[1].slice) == au.src(e.elts[0]) and au.src(
-                            g.generators[0].target) == au.src(e.elts[0]):
-            ok = True
-    if ok:
-        R.holds('R-FORMAT', w.qualname, 'succ = {k: self._succ[k]} over '
-                'the reachable nodes (layout of _succ kept)')
-    else:
-        R.violation('R-FORMAT', 'pickle-content', w.qualname, 'succ',
-                    'the dumped node table is no longer a restriction of '
-                    '_succ', unit=w.unit.rel, line=w.lineno)
+    # the node table of the dump, and what load() makes of it: decided on
+    # the round-trip model
+    from . import models
+    models.pickle_roundtrip_model(P, R)
     # whole-manager dump: every persistent table is stored and restored
     wm = P.func('dd.bdd.BDD._dump_manager')
     rm = P.func('dd.bdd.BDD._load_manager')
